@@ -1136,6 +1136,13 @@ def oracle_C14(ctx, cases, answers):
 def oracle_C15(ctx, cases, answers):
     v = []
     for i, (c, a) in enumerate(zip(cases, answers)):
+        if c.get("stream") == "ptype-escaped":
+            # the type string of a PURL is taken for a known type only if it IS the name (up to ASCII case): a
+            # percent-encoded spelling is an invalid type, not a known one
+            p = fields(a).get("p", a)
+            if p.startswith("OK:"):
+                v.append((i, "the percent-encoded type of %r is taken for a type: %s" % (c["s"], p[:80])))
+            continue
         if not c["req"].startswith("ptype "):
             continue
         s = unhx(c["req"].split(" ")[1])
@@ -1293,6 +1300,10 @@ def oracle_C16(ctx, cases, answers):
                 is_str = False
             if not is_str and not a.startswith("ERR:serde"):
                 v.append((i, "a value that is not a string (%r) is not refused: %s" % (c["doc"], a[:100])))
+        elif st == "de-long":
+            ref = answers[c["reference"]]
+            if ref.startswith("p=OK") != a.startswith("OK"):
+                v.append((i, "a long string value (%s…, %d bytes): parsing says %s, deserialising says %s" % (c["s"], len(c["req"]) // 2, ref[:40], a[:60])))
         elif st == "dev-string":
             ref = answers[c["reference"]]
             rp = fields(ref).get("p", ref)
